@@ -49,7 +49,7 @@ func (x *Exec) funcFieldKey(v ssa.Value) string {
 	if !ok {
 		return ""
 	}
-	pt, ok := types.Unalias(fa.X.Type()).Underlying().(*types.Pointer)
+	pt, ok := under(fa.X.Type()).(*types.Pointer)
 	if !ok {
 		return ""
 	}
@@ -78,6 +78,7 @@ func (x *Exec) call(fr *Frame, instr ssa.Instruction, c *ssa.CallCommon, st *Sta
 		key := x.ifaceKey(c)
 		if _, ok := types.Unalias(c.Value.Type()).(*types.TypeParam); ok {
 			// method of a type parameter: pure uninterpreted function of the receiver
+			x.trustedUsed["method "+c.Method.Name()+" of the type parameter is a pure function of its receiver (every instantiation in /repo carries a `def` contract)"] = true
 			fn := "tpm_" + sanitize(key)
 			var as []string
 			as = append(as, x.so.sortOf(recv.T))
@@ -381,7 +382,7 @@ func (x *Exec) havocAssigns(fc *FuncContract, env *Env, post *State) {
 					continue
 				}
 				// pointer to heap struct: all fields of that object
-				pt := types.Unalias(p.T).Underlying().(*types.Pointer)
+				pt := under(p.T).(*types.Pointer)
 				if si := x.so.structOf(pt.Elem()); si != nil {
 					for i := range si.Fields {
 						key, _ := x.fieldKey(si, i)
@@ -434,7 +435,7 @@ func (x *Exec) havocAssigns(fc *FuncContract, env *Env, post *State) {
 			// elems(s): contents of a slice
 			if id, ok := t.Fun.(*CIdent); ok && id.Name == "elems" && len(t.Args) == 1 {
 				s := x.tr(t.Args[0], env)
-				slt := types.Unalias(s.T).Underlying().(*types.Slice)
+				slt := under(s.T).(*types.Slice)
 				key, srt := x.elemKey(slt.Elem())
 				h := x.heapGet(post, key, srt)
 				es := x.so.sortOf(slt.Elem())
@@ -506,7 +507,7 @@ func (x *Exec) builtin(fr *Frame, b *ssa.Builtin, c *ssa.CallCommon, args []Val,
 }
 
 func (x *Exec) lenOf(st *State, v Val) Term {
-	switch t := types.Unalias(v.T).Underlying().(type) {
+	switch t := under(v.T).(type) {
 	case *types.Slice:
 		return app("s_len", v.S)
 	case *types.Map:
@@ -518,7 +519,7 @@ func (x *Exec) lenOf(st *State, v Val) Term {
 	case *types.Array:
 		return intLit(t.Len())
 	case *types.Pointer:
-		if at, ok := types.Unalias(t.Elem()).Underlying().(*types.Array); ok {
+		if at, ok := under(t.Elem()).(*types.Array); ok {
 			return intLit(at.Len())
 		}
 	}
@@ -529,12 +530,12 @@ func (x *Exec) lenOf(st *State, v Val) Term {
 // appendOp models append(s, t...) with Go's aliasing rule.
 func (x *Exec) appendOp(args []Val, resT types.Type, st *State, reach Term, pos token.Pos) (Val, *State) {
 	s, t := args[0], args[1]
-	slt := types.Unalias(s.T).Underlying().(*types.Slice)
+	slt := under(s.T).(*types.Slice)
 	key, srt := x.elemKey(slt.Elem())
 	es := x.so.sortOf(slt.Elem())
 	h := x.heapGet(st, key, srt)
 	var tlen Term
-	if _, isStr := types.Unalias(t.T).Underlying().(*types.Basic); isStr {
+	if _, isStr := under(t.T).(*types.Basic); isStr {
 		x.fail("append string")
 	}
 	tlen = app("s_len", t.S)
@@ -574,12 +575,12 @@ func (x *Exec) appendOp(args []Val, resT types.Type, st *State, reach Term, pos 
 
 func (x *Exec) copyOp(args []Val, resT types.Type, st *State, reach Term) (Val, *State) {
 	d, s := args[0], args[1]
-	dlt := types.Unalias(d.T).Underlying().(*types.Slice)
+	dlt := under(d.T).(*types.Slice)
 	key, srt := x.elemKey(dlt.Elem())
 	es := x.so.sortOf(dlt.Elem())
 	h := x.heapGet(st, key, srt)
 	var slen, sreg, soff Term
-	if _, isSlice := types.Unalias(s.T).Underlying().(*types.Slice); isSlice {
+	if _, isSlice := under(s.T).(*types.Slice); isSlice {
 		slen, sreg, soff = app("s_len", s.S), app("s_reg", s.S), app("s_off", s.S)
 	} else {
 		x.fail("copy from %s", s.T)
